@@ -211,6 +211,15 @@ func runUDP(rc *RunCtx, which string) {
 		targets = append(targets, ts)
 	}
 	stranger, _ := w.BindUDP(&net.UDPAddr{IP: net.ParseIP("192.0.32.8").To4(), Port: 777})
+	// a second sender on each target's own IP (same host, another port)
+	var siblings []*simnet.UDPConn
+	for i, ts := range targets {
+		sb, err := w.BindUDP(&net.UDPAddr{IP: ts.LocalAddr().(*net.UDPAddr).IP, Port: 4100 + i})
+		if err != nil {
+			panic(err)
+		}
+		siblings = append(siblings, sb)
+	}
 	nReply := 0
 	bigReplies := G.Draw(4) == 0
 	for ti, ts := range targets {
@@ -218,6 +227,7 @@ func runUDP(rc *RunCtx, which string) {
 		ti := ti
 		nrep := []int{1, 0, 2}[G.Draw(3)]
 		useStranger := G.Draw(4) == 0
+		useSibling := G.Draw(3) == 0
 		simrt.GoDaemon(fmt.Sprintf("udp-target-%d", ti), func() {
 			buf := make([]byte, 70000)
 			for {
@@ -236,6 +246,8 @@ func runUDP(rc *RunCtx, which string) {
 					sock := ts
 					if useStranger && k == 1 {
 						sock = stranger
+					} else if useSibling && k == nrep-1 {
+						sock = siblings[ti]
 					}
 					sock.WriteToUDP(p, from)
 					if rec := sock.LastSent; rec != nil {
